@@ -326,6 +326,8 @@ func runC06(c *Ctx) {
 	c.releaseCensus("R8")
 	c.ioErrorsEndRule("R9")
 	c.handlersNeverTeardown("R10")
+	r.Rule("R11", "a Connect on a connected (or connecting) client is refused: the already-connected test, the store connected = true and the start of the connection goroutines lie in one uninterrupted hold of the connection mutex (shared with C03.R7)")
+	c.connectAtomicRule("R11")
 
 	// ---- R6
 	if len(loads) == 1 {
@@ -678,7 +680,7 @@ func (c *Ctx) isConnContext(v ssa.Value) bool {
 			return false
 		}
 		call, ok := ex.Tuple.(*ssa.Call)
-		if !ok || calleeName(&call.Call) != "context.WithCancel" {
+		if !ok || !c.isCancelPair(call) {
 			return false
 		}
 		stored := false
@@ -698,6 +700,38 @@ func (c *Ctx) isConnContext(v ssa.Value) bool {
 		}
 	}
 	return true
+}
+
+// isCancelPair: call yields (context, its cancel function): context.WithCancel
+// itself, or a module helper every return of which hands back both results
+// of one WithCancel call in that order.
+func (c *Ctx) isCancelPair(call *ssa.Call) bool {
+	if calleeName(&call.Call) == "context.WithCancel" {
+		return true
+	}
+	cal := call.Call.StaticCallee()
+	if cal == nil || call.Call.IsInvoke() || !c.InModuleFn(cal) || cal.Blocks == nil || cal.Signature.Results().Len() != 2 {
+		return false
+	}
+	n, ok := 0, true
+	funcInstrs(cal, func(in ssa.Instruction) {
+		rt, isR := in.(*ssa.Return)
+		if !isR {
+			return
+		}
+		n++
+		e0, ok0 := retVal(rt, 0).(*ssa.Extract)
+		e1, ok1 := retVal(rt, 1).(*ssa.Extract)
+		if !ok0 || !ok1 || e0.Tuple != e1.Tuple || e0.Index != 0 || e1.Index != 1 {
+			ok = false
+			return
+		}
+		inner, isC := e0.Tuple.(*ssa.Call)
+		if !isC || calleeName(&inner.Call) != "context.WithCancel" {
+			ok = false
+		}
+	})
+	return ok && n > 0
 }
 
 // isCtxDoneChan: ch is the result of Done() on the connection context.
@@ -1257,6 +1291,8 @@ func runC07(c *Ctx) {
 	r.Rule("R3", "every connection goroutine that consumes a queue or does socket I/O calls the teardown on every exit path")
 	r.Rule("R4", "every success path of the connect routine creates fresh inbound and outbound queues and, when tracking, wipes the tracker - after the refusals")
 	r.Rule("R6", "a connection stays up until something ends it: the context its goroutines watch derives from the caller's context by WithCancel only - no WithTimeout / WithDeadline (a dial or handshake time limit, say) lies on its ancestry inside the library")
+	r.Rule("R7", "a handler may reconnect: no lock of the library is held while handlers of any set are dispatched (must-lockset at every dispatch of a handler set is empty), so Connect or Close called from inside a handler cannot meet a lock its own dispatch holds")
+	r.Rule("R8", "a connection stays up until something ends it: every deadline set on the socket during set-up (SetDeadline / SetReadDeadline / SetWriteDeadline with a non-zero time) is cleared again in both directions on every path to a successful return")
 	r.Rule("R5", "every go statement in package client is a WaitGroup member (Add constants equal member spawns on every path; each member does exactly one Done per exit), locally joined, the detached background dispatch, or a teardown helper stopped before the teardown returns")
 	funcs, ls, tf := c.releaseCensus("R1")
 	if tf.wait == nil {
@@ -1487,6 +1523,8 @@ func runC07(c *Ctx) {
 	// and after it the tracker answers from its state, never from a cache that the reset forgot (C12.R10)
 	c.trackerRules(map[string]string{"R7": "R4", "R6": "R4", "R10": "R4"})
 	c.lifetimeContextRule("R6")
+	c.noLocksAtDispatchRule("R7")
+	c.noArmedDeadlineRule("R8")
 
 	// ---- R5
 	c.goCensus("R5", tf)
@@ -1722,7 +1760,32 @@ func (c *Ctx) lifetimeContextRule(rule string) {
 				case "context.WithTimeout", "context.WithDeadline":
 					return false, "derives from " + calleeName(&call.Call) + " at " + c.InstrPos(call) + ": the connection ends when that limit passes"
 				default:
-					return false, "derives from " + calleeName(&call.Call)
+					// a module helper that derives the context: what it returns, with its context parameters
+					// standing for what this call passes
+					cal := call.Call.StaticCallee()
+					if cal == nil || call.Call.IsInvoke() || !c.InModuleFn(cal) || cal.Blocks == nil {
+						return false, "derives from " + calleeName(&call.Call)
+					}
+					okH, whyH := true, ""
+					funcInstrs(cal, func(in ssa.Instruction) {
+						rt, isR := in.(*ssa.Return)
+						if !isR || t.Index >= len(rt.Results) {
+							return
+						}
+						if ok2, why := check(retVal(rt, t.Index), depth+1); !ok2 {
+							okH, whyH = false, why
+						}
+					})
+					if !okH {
+						return false, whyH
+					}
+					for _, a := range call.Call.Args {
+						if typeString(a.Type()) == "context.Context" {
+							if ok2, why := check(a, depth+1); !ok2 {
+								return false, why
+							}
+						}
+					}
 				}
 			case *ssa.Call:
 				switch calleeName(&t.Call) {
@@ -1905,4 +1968,163 @@ func (c *Ctx) handlersNeverTeardown(rule string) {
 	}
 	r.Add(rule, "no-handler-teardown", "-", "", fmt.Sprintf("none of the %d functions awaited by the event loop on behalf of built-in handlers calls the teardown", len(reach.Order)), n == 0, fmt.Sprintf("%d calls", n))
 	r.Floor(rule, "functions reachable from built-in handlers", len(reach.Order), 20)
+}
+
+// noLocksAtDispatchRule: C07.R7.
+func (c *Ctx) noLocksAtDispatchRule(rule string) {
+	r := c.R
+	ls := c.ComputeLocksets(c.clientFuncs())
+	n := 0
+	for _, cs := range c.SetDispatchSites() {
+		fn := cs.Parent()
+		if ls.Dead[fn] {
+			continue
+		}
+		n++
+		var held []string
+		for l, m := range ls.At[cs] {
+			if m != 0 {
+				held = append(held, l)
+			}
+		}
+		sort.Strings(held)
+		r.Add(rule, fmt.Sprintf("dispatch-unlocked:%s#%d", c.FuncKey(fn), n), c.InstrPos(cs), c.FuncKey(fn), "handlers are dispatched with no library lock held", len(held) == 0, fmt.Sprintf("held: %v", held))
+	}
+	r.Floor(rule, "dispatch sites of handler sets", n, 3)
+	// the dispatch machinery itself takes no lock but the handler set's (a lock taken on some paths only escapes the
+	// must-lockset above; a dispatch that takes one cannot be re-entered from a handler it is running)
+	a := c.A
+	own := c.lockFieldName(c.Client, "hSet")
+	mach := map[*ssa.Function]bool{}
+	var add func(fn *ssa.Function, depth int)
+	add = func(fn *ssa.Function, depth int) {
+		if fn == nil || mach[fn] || depth > 4 || !c.InModuleFn(fn) || fn.Package() != c.Client {
+			return
+		}
+		mach[fn] = true
+		for _, an := range fn.AnonFuncs {
+			add(an, depth+1)
+		}
+		for _, cs := range CallSites(fn) {
+			cc := cs.Common()
+			if cc.IsInvoke() {
+				continue
+			}
+			if cal := cc.StaticCallee(); cal != nil && cal != a.Teardown && cal != a.TeardownCore && cal != a.Connect {
+				if rn := recvNamed(cal); rn != nil && (rn == a.HSet || rn == a.HNode || rn == c.Named(c.Client, "hList")) {
+					add(cal, depth+1)
+				}
+			}
+		}
+	}
+	add(a.ConnDispatch, 0)
+	add(a.SetDispatch, 0)
+	nOps := 0
+	for _, fn := range c.sortedFuncs(mach) {
+		funcInstrs(fn, func(in ssa.Instruction) {
+			op, ok := c.lockOpOf(in)
+			if !ok || (op.Method != "Lock" && op.Method != "RLock") {
+				return
+			}
+			nOps++
+			r.Add(rule, "dispatch-lock:"+c.FuncKey(fn)+":"+op.Obj, c.InstrPos(in), c.FuncKey(fn), "the dispatch machinery takes no lock but the handler set's own", op.Obj == own, "acquires "+op.Obj)
+		})
+	}
+	r.Add(rule, "dispatch-machinery", "-", "", fmt.Sprintf("%d functions of the dispatch machinery examined", len(mach)), len(mach) >= 2, fmt.Sprintf("%d lock acquisitions", nOps))
+}
+
+// noArmedDeadlineRule: C07.R8.
+func (c *Ctx) noArmedDeadlineRule(rule string) {
+	r := c.R
+	n := 0
+	kind := func(in ssa.Instruction) (string, bool, bool) { // name, isDeadlineCall, clears
+		cc := callOf(in)
+		if cc == nil {
+			return "", false, false
+		}
+		name := ""
+		if cc.IsInvoke() {
+			name = cc.Method.Name()
+		} else if cal := cc.StaticCallee(); cal != nil {
+			name = cal.Name()
+		}
+		switch name {
+		case "SetDeadline", "SetReadDeadline", "SetWriteDeadline":
+		default:
+			return "", false, false
+		}
+		if len(cc.Args) == 0 {
+			return name, true, false
+		}
+		arg := cc.Args[len(cc.Args)-1]
+		zero := false
+		// time.Time{}: a load of a fresh, never written local of type time.Time
+		if u, ok := arg.(*ssa.UnOp); ok && u.Op == token.MUL {
+			if al, isAl := u.X.(*ssa.Alloc); isAl {
+				zero = true
+				for _, ref := range *al.Referrers() {
+					if _, isSt := ref.(*ssa.Store); isSt {
+						zero = false
+					}
+				}
+			}
+		}
+		if k, ok := arg.(*ssa.Const); ok && k.Value == nil {
+			zero = true
+		}
+		return name, true, zero
+	}
+	for _, fn := range c.clientFuncs() {
+		funcInstrs(fn, func(in ssa.Instruction) {
+			name, isD, clears := kind(in)
+			if !isD || clears {
+				return
+			}
+			n++
+			needR, needW := name != "SetWriteDeadline", name != "SetReadDeadline"
+			// every path from here to a return whose error result is nil (or any return of a function without one)
+			bad := ""
+			var walk func(at ssa.Instruction, r0, w0 bool, seen map[string]bool)
+			walk = func(at ssa.Instruction, r0, w0 bool, seen map[string]bool) {
+				key := fmt.Sprintf("%p/%v/%v", at, r0, w0)
+				if seen[key] || bad != "" {
+					return
+				}
+				seen[key] = true
+				if nm, isD2, cl := kind(at); isD2 && at != in {
+					if cl {
+						if nm != "SetWriteDeadline" {
+							r0 = false
+						}
+						if nm != "SetReadDeadline" {
+							w0 = false
+						}
+					} else {
+						// re-armed: that call is judged on its own
+						return
+					}
+				}
+				if rt, isR := at.(*ssa.Return); isR {
+					success := true
+					for i := range rt.Results {
+						if typeString(rt.Results[i].Type()) == "error" && !isNilConst(retVal(rt, i)) {
+							success = false
+						}
+					}
+					if success && (r0 || w0) {
+						bad = "the return at " + c.InstrPos(rt) + " is reached with the deadline still armed"
+					}
+					return
+				}
+				for _, nx := range succInstrs(at) {
+					walk(nx, r0, w0, seen)
+				}
+			}
+			for _, nx := range succInstrs(in) {
+				walk(nx, needR, needW, map[string]bool{})
+			}
+			r.Add(rule, "deadline:"+c.FuncKey(fn)+":"+name, c.InstrPos(in), c.FuncKey(fn), "a deadline set on the socket is cleared again before the function reports success", bad == "", bad)
+		})
+	}
+	r.Add(rule, "deadlines-examined", "-", "", "socket deadlines armed in package client", true, fmt.Sprintf("%d arming calls", n))
 }
